@@ -1,10 +1,17 @@
 #!/bin/bash
-# usage: tools/seed_run.sh <seeded/<id> dir or patch.diff> <PROP> [tier] [more props]  - apply an archived seed to /repo, run checks, undo
+# usage: tools/seed_run.sh <seeded/<id> dir or patch.diff> <PROP> [tier] [more props]
+# runs checks against /repo + patch: scratch copy via GOODWE_SRC (default) or, with SEED_IN_REPO=1, git apply on /repo + undo
 P=$(realpath $1); [ -d "$P" ] && P=$P/patch.diff; PROP=$2; TIER=${3:-quick}; shift 3 2>/dev/null
-if [ -n "$(git -C /repo status --porcelain -- goodwe)" ]; then echo "REPO DIRTY - abort"; exit 2; fi
-git -C /repo apply "$P" || { echo "cannot apply"; exit 2; }
+if [ -n "$SEED_IN_REPO" ]; then
+  if [ -n "$(git -C /repo status --porcelain -- goodwe)" ]; then echo "REPO DIRTY - abort"; exit 2; fi
+  git -C /repo apply "$P" || { echo "cannot apply"; exit 2; }
+  SRC=/repo
+else
+  SRC=$(mktemp -d /var/tmp/gwseed.XXXXXX); cp -r /repo/goodwe $SRC/; ( cd $SRC && patch -p1 -s < "$P" ) || { echo "cannot apply"; rm -rf $SRC; exit 2; }
+fi
 cd /verif
 for X in $PROP "$@"; do
-  MC_EVIDENCE_DIR=/var/tmp/seed_ev MC_REPLAY_DIR=/var/tmp/seed_rp /venv/bin/python -m mc.cli $X --tier $TIER 2>&1 | grep -E "^(VIOLATION|  key=|C[0-9]+ tier|HARNESS)" | grep -v "^VIOLATION" | head -${LINES_MAX:-5} | cut -c1-200
+  GOODWE_SRC=$SRC MC_EVIDENCE_DIR=/var/tmp/seed_ev.$$ MC_REPLAY_DIR=/var/tmp/seed_rp.$$ /venv/bin/python -m mc.cli $X --tier $TIER 2>&1 | grep -E "^(VIOLATION|  key=|C[0-9]+ tier|HARNESS)" | grep -v "^VIOLATION" | head -${LINES_MAX:-5} | cut -c1-200
 done
-git -C /repo checkout -- . ; rm -rf /var/tmp/seed_ev /var/tmp/seed_rp
+if [ -n "$SEED_IN_REPO" ]; then git -C /repo checkout -- . ; echo "--- repo restored: $(git -C /repo status --porcelain | wc -l) dirty files"; else rm -rf $SRC; fi
+rm -rf /var/tmp/seed_ev.$$ /var/tmp/seed_rp.$$
